@@ -20,7 +20,12 @@ RULE = ('Per function of the property: admissible parameter vectors drawn from m
         'quadrature/summation of the defining expectation, and random evaluation-mode decisions. For the exact EOQ with disruptions also the two '
         'regimes in which the exact optimum is far from the approximate one that centres its search: small fixed cost with holding cost above '
         'stockout cost (optimum below), and stockout cost 1e-3.5..1e-1.2 with recovery rate 0.02..0.5 (optimum above, more than 10x in about '
-        'half of the cases). non-trivial = valid parameters '
+        'half of the cases). Functions that accept the same quantity in two ways are also called with BOTH at once, about different distributions: '
+        'newsvendor_with_additive_yield_uncertainty with yield_mean, yield_sd AND a non-normal yield_distribution (uniform / shifted exponential with the '
+        'same two moments, or an unrelated uniform / gamma / randint) [AND a loss_function], and with only one of the two moments next to a distribution; '
+        'newsvendor_discrete with demand_distrib AND an unrelated demand_pmf; newsvendor_continuous with demand_distrib AND an unrelated demand_pdf -- '
+        'the optimum must be optimal for the cost the function itself evaluates (the documented precedence: moments, resp. the distribution object). '
+        'pmf dicts are passed with their keys inserted in ascending, descending, random or decreasing-probability order. non-trivial = valid parameters '
         'with a strictly positive optimal cost and at least one alternative strictly worse; distinct = distinct (function, parameters).')
 
 C10_TRANSLATED = [q for q in py2v.EXPECTED]
@@ -438,10 +443,14 @@ def o_nv_continuous(o, rng):
     kind, pars, mk = cont_distribs(rng)
     dist = mk(pars)
     case = dict(function='newsvendor_continuous', holding_cost=h, stockout_cost=p, distribution=kind, parameters=pars)
-    r = o.call('newsvendor_continuous', nv.newsvendor_continuous, case, h, p, dist)
+    pdf = None
+    if rng.random() < .3:                                   # demand_pdf (of some other distribution) given as well: documented as ignored next to demand_distrib
+        from scipy import stats
+        pm = rng.uniform(5, 150); other = stats.norm(pm, pm * rng.uniform(.05, .3)); pdf = other.pdf; case['ignored_demand_pdf'] = ['norm', float(other.mean()), float(other.std())]
+    r = o.call('newsvendor_continuous', nv.newsvendor_continuous, case, h, p, dist, pdf)
     if r is None: return case, False
     S, c = r
-    ev = lambda y: (o.call('newsvendor_continuous', nv.newsvendor_continuous, dict(case, base_stock_level=y), h, p, dist, None, y) or (None, None))[1]
+    ev = lambda y: (o.call('newsvendor_continuous', nv.newsvendor_continuous, dict(case, base_stock_level=y), h, p, dist, pdf, y) or (None, None))[1]
     # continuous_loss integrates numerically (scipy quad, ~1e-8): coherence and optimality are judged at 1e-7
     cS = ev(float(S))
     if cS is not None and not o.close(c, cS, 1e-7):
@@ -484,23 +493,33 @@ def o_nv_discrete(o, rng, model_cases=None):
     nv = imp('newsvendor')
     h = Fraction(rng.randint(1, 60), 4); p = Fraction(rng.randint(0, 120), 4)
     if rng.random() < .2: p = Fraction(0)
-    use_pmf = rng.random() < .6
+    form = rng.choice(['pmf'] * 5 + ['distrib'] * 3 + ['distrib+pmf'] * 2)
+    use_pmf = form == 'pmf'
     if use_pmf:
-        pmf = gen_pmf(rng); fp = {k: float(v) for k, v in pmf.items()}
-        case = dict(function='newsvendor_discrete', form='pmf', holding_cost=h, stockout_cost=p, pmf={str(k): v for k, v in pmf.items()})
+        # the dict in the order a caller may have built it: ascending keys, descending, random (Counter over a history), by decreasing probability
+        pmf = gen_pmf(rng); order = rng.choice(['ascending', 'descending', 'shuffled', 'by-decreasing-probability']); items = sorted(pmf.items())
+        if order == 'descending': items.reverse()
+        elif order == 'shuffled': rng.shuffle(items)
+        elif order == 'by-decreasing-probability': items.sort(key=lambda kv: (-kv[1], rng.random()))
+        fp = {k: float(v) for k, v in items}
+        case = dict(function='newsvendor_discrete', form='pmf', holding_cost=h, stockout_cost=p, key_order=order, pmf={str(k): v for k, v in items})
         kw = dict(demand_pmf=fp)
         support = list(range(min(pmf) - 2, max(pmf) + 3))
         expect = lambda y: float(sum(pr * (h * max(y - d, 0) + p * max(d - y, 0)) for d, pr in pmf.items()))
         sig = 'newsvendor_discrete|pmf'
     else:
         kind, pars, mk = disc_distribs(rng); dist = mk(pars)
-        case = dict(function='newsvendor_discrete', form='distrib', holding_cost=h, stockout_cost=p, distribution=kind, parameters=pars)
+        case = dict(function='newsvendor_discrete', form=form, holding_cost=h, stockout_cost=p, distribution=kind, parameters=pars)
         kw = dict(demand_distrib=dist)
+        if form == 'distrib+pmf':
+            # both ways of giving the demand at once, about DIFFERENT distributions: demand_pmf is documented as ignored then -- and whatever the
+            # precedence, the level and its cost must be about the same distribution
+            other = gen_pmf(rng); kw['demand_pmf'] = {k: float(v) for k, v in other.items()}; case['ignored_pmf'] = {str(k): v for k, v in other.items()}
         hi = int(dist.ppf(1 - 1e-12)) + 5; lo = int(dist.ppf(1e-12)) - 2
         support = sorted(set(range(lo, min(hi, lo + 70))) | {rng.randint(lo, hi) for _ in range(6)})
         ds = np.arange(max(0, lo), int(dist.ppf(1 - 1e-15)) + 60); pm = dist.pmf(ds)
         expect = lambda y: float(np.sum(pm * (float(h) * np.maximum(y - ds, 0) + float(p) * np.maximum(ds - y, 0))))
-        sig = 'newsvendor_discrete|distrib'
+        sig = 'newsvendor_discrete|' + form
     r = o.call(sig, nv.newsvendor_discrete, case, float(h), float(p), **kw)
     if r is None: return case, False
     S, c = r
@@ -585,36 +604,71 @@ def o_explicit(o, rng, poisson):
     return case, worse > 0
 
 
-def o_nv_yield(o, rng):
+YIELD_FORMS = ['normal', 'continuous', 'discrete', 'loss_function',
+               # the yield specified in MORE THAN ONE WAY at once (the docstring: yield_distribution is "required if yield_mean or yield_sd is None",
+               # loss_function is "ignored if yield_distribution is None"): moments AND a non-normal distribution object [AND its loss function] --
+               # the moments (normal yield) decide, in the optimiser and in the cost alike; a distribution AND only one of the two moments -- the
+               # distribution decides. Whatever the precedence, the optimiser and the evaluator must apply the same one.
+               'normal+distribution', 'normal+distribution', 'normal+distribution+loss_function', 'mean-only+distribution', 'sd-only+distribution']
+
+
+def other_yield_distribution(rng, m, s):
+    """a non-normal yield distribution: half of the time with the SAME mean m and sd s as the normal specification given next to it"""
+    from scipy import stats
+    k = rng.choice(['uniform-same-moments', 'shifted-exponential-same-moments', 'uniform', 'gamma', 'randint'])
+    if k == 'uniform-same-moments': a = [m - s * math.sqrt(3), 2 * s * math.sqrt(3)]; return k, a, stats.uniform(*a)
+    if k == 'shifted-exponential-same-moments': a = [m - s, s]; return k, a, stats.expon(*a)
+    if k == 'uniform': a = [rng.uniform(-20, 5), rng.uniform(2, 30)]; return k, a, stats.uniform(*a)
+    if k == 'gamma': a = [rng.uniform(1.5, 6), rng.uniform(-10, 5), rng.uniform(.5, 6)]; return k, a, stats.gamma(a[0], loc=a[1], scale=a[2])
+    lo = rng.randint(0, 6); a = [lo, lo + rng.randint(2, 15)]; return k, a, stats.randint(*a)
+
+
+def o_nv_yield(o, rng, form=None):
     su = imp('supply_uncertainty'); lf = imp('loss_functions')
     from scipy import stats
     h, p = cost(rng), cost(rng)
-    form = rng.choice(['normal', 'continuous', 'discrete', 'loss_function'])
+    form = form or rng.choice(YIELD_FORMS)
     d = float(rng.randint(20, 300))
     name = 'newsvendor_with_additive_yield_uncertainty'
+    extra = {}
+    # dist = the distribution the function's OWN cost is about; eff = how that cost is computed (closed form / continuous_loss / discrete_loss)
     if form in ('normal', 'loss_function'):
         m, s = rng.uniform(-15, 15), rng.uniform(0.5, 12)
-        dist = stats.norm(m, s)
+        dist = stats.norm(m, s); eff = 'closed'
         kw = dict(yield_mean=m, yield_sd=s) if form == 'normal' else dict(yield_distribution=dist, loss_function=lambda R: lf.normal_loss(R, m, s))
         pars = [m, s]
     elif form == 'continuous':
         lo, w = rng.uniform(-20, 5), rng.uniform(2, 30)
-        dist = stats.uniform(lo, w); kw = dict(yield_distribution=dist); pars = [lo, w]
-    else:
+        dist = stats.uniform(lo, w); kw = dict(yield_distribution=dist); pars = [lo, w]; eff = 'continuous'
+    elif form == 'discrete':
         lo = rng.randint(0, 6); hi = lo + rng.randint(2, 15)          # discrete_loss documents F(x) = 0 for x < 0
-        dist = stats.randint(lo, hi); kw = dict(yield_distribution=dist); pars = [lo, hi]
-    case = dict(function=name, form=form, holding_cost=h, stockout_cost=p, demand=d, yield_parameters=pars)
+        dist = stats.randint(lo, hi); kw = dict(yield_distribution=dist); pars = [lo, hi]; eff = 'discrete'
+    elif form.startswith('normal+distribution'):
+        m, s = rng.uniform(-15, 15), rng.uniform(0.5, 12); pars = [m, s]
+        ok, oa, other = other_yield_distribution(rng, m, s)
+        dist = stats.norm(m, s); eff = 'closed'
+        kw = dict(yield_mean=m, yield_sd=s, yield_distribution=other)
+        if form.endswith('loss_function'):
+            kw['loss_function'] = (lambda R: lf.discrete_loss(int(R), other)) if ok == 'randint' else (lambda R: lf.continuous_loss(R, other))
+        extra = dict(yield_distribution=ok, yield_distribution_parameters=oa)
+    else:                                                   # one moment only, next to a distribution object: the object is the yield distribution
+        m, s = rng.uniform(-15, 15), rng.uniform(0.5, 12)
+        lo, w = rng.uniform(-20, 5), rng.uniform(2, 30)
+        dist = stats.uniform(lo, w); pars = [lo, w]; eff = 'continuous'
+        kw = dict(yield_distribution=dist, **(dict(yield_mean=m) if form.startswith('mean') else dict(yield_sd=s)))
+        extra = dict(yield_mean=m) if form.startswith('mean') else dict(yield_sd=s)
+    case = dict(function=name, form=form, holding_cost=h, stockout_cost=p, demand=d, yield_parameters=pars, **extra)
     r = o.call(name + '|' + form, su.newsvendor_with_additive_yield_uncertainty, case, h, p, d, **kw)
     if r is None: return case, False
     S, c = r
     ev = lambda y: (o.call(name + '|' + form, su.newsvendor_with_additive_yield_uncertainty, dict(case, base_stock_level=y), h, p, d, base_stock_level=y, **kw) or (None, None))[1]
-    loose = form == 'continuous'                            # continuous_loss integrates numerically
+    loose = eff == 'continuous'                             # continuous_loss integrates numerically
     tol = 1e-7 if loose else REL
     cS = ev(float(S))
     if cS is not None and not o.close(c, cS, tol):
         o.chk.fail(name + '|' + form + '|optimise-vs-evaluate', 'cost with optimum %r != evaluated %r' % (c, cS), case)
     sd = float(dist.std())
-    if form == 'discrete':
+    if eff == 'discrete':
         ys = sorted({float(S) + k for k in range(-12, 13)} | {float(S) + rng.randint(-40, 40) for _ in range(5)})
     else:
         ys = near_far(float(S), rng, positive=False, scale=sd)
@@ -629,7 +683,7 @@ def o_nv_yield(o, rng):
         if float(v) > float(c) * (1 + 1e-6): worse += 1
     for y in [float(S)] + rng.sample(ys, 2):
         R = d - y                                           # cost = h E[(Y - R)^+] + p E[(R - Y)^+]
-        if form == 'discrete':
+        if eff == 'discrete':
             ks = np.arange(pars[0], pars[1]); want = float(np.mean(h * np.maximum(ks - R, 0) + p * np.maximum(R - ks, 0)))
         else:
             want = dist_expect(dist, lambda t: h * max(t - R, 0) + p * max(R - t, 0), R)
@@ -700,7 +754,7 @@ ORACLES = [
     ('newsvendor_normal(+_cost)', o_nv_normal, 0.6), ('newsvendor_poisson(+_cost)', o_nv_poisson, 0.6), ('newsvendor_continuous', o_nv_continuous, 0.2),
     ('newsvendor_discrete', None, 3.0), ('myopic(+_cost)', o_myopic, 0.6),
     ('newsvendor_normal_explicit', lambda o, r: o_explicit(o, r, False), 0.6), ('newsvendor_poisson_explicit', lambda o, r: o_explicit(o, r, True), 0.6),
-    ('newsvendor_with_additive_yield_uncertainty', o_nv_yield, 0.3), ('newsvendor_with_disruptions', o_nv_disruptions, 0.5),
+    ('newsvendor_with_additive_yield_uncertainty', o_nv_yield, 0.5), ('newsvendor_with_disruptions', o_nv_disruptions, 0.5),
     ('newsvendor_continuous_far_decision', o_far_continuous, 0.1),
 ]
 
@@ -811,7 +865,9 @@ def replay(chk, rp):
         for name, f, _ in ORACLES:
             if fn and (fn in name or name.split('(')[0] in fn):
                 for _ in range(100):
-                    c, _nt = (o_nv_discrete(o, chk.rng) if f is None else f(o, chk.rng)); chk.case(c)
+                    if f is o_nv_yield and case.get('form') in YIELD_FORMS: c, _nt = o_nv_yield(o, chk.rng, case['form'])      # the recorded way of specifying the yield
+                    else: c, _nt = (o_nv_discrete(o, chk.rng) if f is None else f(o, chk.rng))
+                    chk.case(c)
     chk.case(case)
 
 
